@@ -82,11 +82,6 @@ class LLCheck(Standard):
         "real time is the radio's: the link layer only sees the sequence of callbacks; time is what it hands to schedule_connection_event",
     ]
 
-    def canon(self, line):
-        # which advertising channel is used (and whether a restart begins on 37) is property C24's; the LL checks must not
-        # depend on it (fix/C24-disabled-adv-channel changes it)
-        return re.sub(r"\badv:\d+", "adv:0", line)
-
     def variants(self, ctx):
         return self.variants_thorough if ctx.thorough else self.variants_quick
 
